@@ -142,7 +142,7 @@ def fam_zero(mp, rec, r, p, mode):
         want_im = fzero if typ == 'mpc' else None
         key = None
         if fname == 'cbrt':
-            key = 'C13/cbrt/%s/%s' % (MODE_CLASS[m], 'p<400' if p < 400 else ('p<2000' if p < 2000 else 'p>=2000'))
+            key = 'C13/cbrt/%s/one/%s' % (MODE_CLASS[m], 'p<400' if p < 400 else ('p<2000' if p < 2000 else 'p>=2000'))
         _expect(mp, rec, 'zero', fname, [typ, a], [arg], p, m, use_kw, raw_int(v), want_im, key=key)
     else:
         fname, a, (vr, vi) = r.choice(ZERO_TABLE_COMPLEX_VALUE)
@@ -220,7 +220,7 @@ def fam_cbrt_root(mp, rec, r, p, mode):
     bits = r.choice([1, 2, 3, p // 3, p // 2, p - 1, p, p, r.randint(1, p)])
     if n * bits > 40000:
         bits = max(1, 40000 // n)
-    m = G.mantissa(r, max(1, bits))
+    m = G.mantissa(r, max(1, bits), pattern='ones' if r.random() < 0.15 else None)
     k = r.choice([0, 0, 1, -1, r.randint(-40, 40), r.choice([1000, -1000, 10 ** 5, -10 ** 5])])
     arg = canon(0, m ** n, n * k)
     want = canon(0, m, k)
@@ -228,7 +228,8 @@ def fam_cbrt_root(mp, rec, r, p, mode):
     if fname == 'cbrt':
         use_kw = r.random() < 0.8
         md = mode if use_kw else 'n'
-        key = 'C13/cbrt/%s/%s' % (MODE_CLASS[md], pb)
+        mc = 'one' if m == 1 else ('ones' if m & (m + 1) == 0 else 'other')
+        key = 'C13/cbrt/%s/%s/%s' % (MODE_CLASS[md], mc, pb)
         _expect(mp, rec, 'cbrt', 'cbrt', [arg], [mp.make_mpf(arg)], p, md, use_kw, want, None, key=key, cls='cbrt/' + md)
     else:
         key = 'C13/root/%s/%s' % ('n<=20' if n <= 20 else 'n>20', pb)
